@@ -216,8 +216,18 @@ func judge(tab []link, hist []int, opt route.MinimizeOption, net *route.Network,
 	for i, l := range rt {
 		var found *link
 		for _, li := range hist {
-			if fmt.Sprint(tab[li].Geom) == fmt.Sprint(l) {
-				found = &tab[li]
+			g := tab[li].Geom
+			if len(g) == len(l) && len(l) > 0 && g[0] == l[0] && g[len(g)-1] == l[len(l)-1] {
+				same := true
+				for k := range g {
+					if g[k] != l[k] {
+						same = false
+						break
+					}
+				}
+				if same {
+					found = &tab[li]
+				}
 			}
 		}
 		if found == nil {
@@ -273,7 +283,7 @@ func main() {
 		return
 	}
 	rep = report.New("C19", tier, "model_checking")
-	rep.Rule = "E2: breadth-first search over all AddLink histories (each of the 10 candidate links between 5 irregularly placed nodes at most once; straight / detour geometry, stored direction and speed fixed per link by a table; tables with speeds {1,4} and uniform 0.1 (thorough: three {1,4} tables, uniform 0.1, {0.25,0.5}, uniform 25)) to depth 5 (7), deduplicated by (link set, node-id assignment); successor = replay on a fresh Network; in every distinct state, for both MinimizeOptions, all 49 ordered pairs of query points from {5 node positions, 2 off-network points} (pairs with a non-unique nearest node skipped); E3: in states with <= 3 links every query is additionally explored over all map-iteration orders of the instrumented route package with at most 1 deviation. every state of >= 2 links is also reached on one object with all queries asked before the last AddLink (queries as operations); an 8x8 street grid (64 nodes, 112 links: the node index has several leaves) with all 4096 ordered pairs of 64 off-node query points; Oracle: Floyd-Warshall minimum cost, chain validity, totals, emptiness. Non-trivial = states in which some node pair has at least two distinct routes."
+	rep.Rule = "E2: breadth-first search over all AddLink histories (each of the 10 candidate links between 5 irregularly placed nodes at most once; straight / detour geometry, stored direction and speed fixed per link by a table; tables with speeds {1,4} and uniform 0.1 (thorough: three {1,4} tables, uniform 0.1, {0.25,0.5}, uniform 25)) to depth 5 (7), deduplicated by (link set, node-id assignment); successor = replay on a fresh Network; in every distinct state, for both MinimizeOptions, all 49 ordered pairs of query points from {5 node positions, 2 off-network points} (pairs with a non-unique nearest node skipped); E3: in states with <= 3 links every query is additionally explored over all map-iteration orders of the instrumented route package with at most 1 deviation. every state of >= 2 links is also reached on one object with all queries asked before the last AddLink (queries as operations); an 8x8 street grid (64 nodes, 112 links: the node index has several leaves) with all 4096 ordered pairs of 64 off-node query points (some links densified to 1500 vertices), and a straight road of 80 collinear nodes with 144 query pairs; Oracle: Floyd-Warshall minimum cost, chain validity, totals, emptiness. Non-trivial = states in which some node pair has at least two distinct routes."
 	type tabSpec struct {
 		variant int
 		speeds  [2]float64
@@ -445,8 +455,24 @@ func main() {
 		var tab []link
 		add := func(a, b int) {
 			g := geom.LineString{nodePos[a], nodePos[b]}
+			l := math.Hypot(g[1].X-g[0].X, g[1].Y-g[0].Y)
+			if (a+b)%17 == 0 {
+				// a densified link of 1500 vertices (same straight course): its length
+				// is the sum of 1499 pieces
+				pa, pb := nodePos[a], nodePos[b]
+				g = nil
+				for k := 0; k < 1500; k++ {
+					t := float64(k) / 1499
+					g = append(g, geom.Point{X: pa.X + t*(pb.X-pa.X), Y: pa.Y + t*(pb.Y-pa.Y)})
+				}
+				g[1499] = pb
+				l = 0
+				for k := 0; k+1 < len(g); k++ {
+					l += math.Hypot(g[k+1].X-g[k].X, g[k+1].Y-g[k].Y)
+				}
+			}
 			sp := []float64{1, 4, 2}[(a+2*b)%3]
-			tab = append(tab, link{a, b, g, sp, math.Hypot(g[1].X-g[0].X, g[1].Y-g[0].Y)})
+			tab = append(tab, link{a, b, g, sp, l})
 		}
 		for j := 0; j < 8; j++ {
 			for i := 0; i < 8; i++ {
@@ -488,6 +514,53 @@ func main() {
 							o = "Time"
 						}
 						rep.Violation(fmt.Sprintf("ShortestRoute|%s|grid-8x8|%s", o, sym), map[string]interface{}{"network": "8x8 grid, node (i,j) at (100i+(7i+3j)%5, 100j+(3i+5j)%7), links between grid neighbours, speeds {1,4,2}[(a+2b)%3]", "from": from, "to": to, "observed": det})
+					}
+				}
+			}
+		}
+		nodePos = save
+	}
+	// a straight road: 80 nodes on one horizontal line (every box of the node
+	// index is degenerate), 79 unit links, 12 query points beside the road, all
+	// 144 ordered pairs, both options
+	{
+		save := nodePos
+		nodePos = nil
+		for i := 0; i < 80; i++ {
+			nodePos = append(nodePos, geom.Point{X: float64(i), Y: 0})
+		}
+		var tab []link
+		for i := 0; i+1 < 80; i++ {
+			tab = append(tab, link{i, i + 1, geom.LineString{nodePos[i], nodePos[i+1]}, []float64{1, 4, 2}[i%3], 1})
+		}
+		h := make([]int, len(tab))
+		for i := range h {
+			h[i] = i
+		}
+		var qs []geom.Point
+		for k := 0; k < 12; k++ {
+			qs = append(qs, geom.Point{X: 6.7*float64(k) + 0.2, Y: float64(k%5) - 2.3})
+		}
+		for _, opt := range []route.MinimizeOption{route.Distance, route.Time} {
+			net, p := build(tab, h, opt)
+			if p != "" {
+				rep.Violation("AddLink|panic", map[string]interface{}{"history": "straight road of 80 nodes", "panic": p})
+				continue
+			}
+			states++
+			for _, from := range qs {
+				for _, to := range qs {
+					sym, det, skip := judge(tab, h, opt, net, from, to)
+					queriesRun++
+					if skip {
+						skipped++
+					}
+					if sym != "" {
+						o := "Distance"
+						if opt == route.Time {
+							o = "Time"
+						}
+						rep.Violation(fmt.Sprintf("ShortestRoute|%s|road-80|%s", o, sym), map[string]interface{}{"network": "80 nodes (i,0), i = 0..79, unit links between neighbours, speeds {1,4,2}[i%3]", "from": from, "to": to, "observed": det})
 					}
 				}
 			}
